@@ -150,6 +150,29 @@ def parallel(fn_mod, fn_name, payloads, procs=None):
 # ---------------------------------------------------------------- known findings
 
 
+def load_fixed(prop):
+    path = os.path.join(VERIF, "known_findings.json")
+    if not os.path.exists(path):
+        return []
+    data = json.load(open(path))
+    return [f for f in data.get("fixed", []) if f["property"] == prop]
+
+
+def regressions(prop):
+    """witnesses of repaired defects are a corpus that must pass: a fixed entry suppresses nothing"""
+    import witness as wit
+
+    out = []
+    for f in load_fixed(prop):
+        try:
+            failing = wit.replay(f["witness"])
+        except Exception as e:  # noqa
+            failing = True
+        if failing:
+            out.append({"law": "a repaired defect is back: " + f["line"], "witness": f["witness"]})
+    return out
+
+
 def load_known(prop):
     path = os.path.join(VERIF, "known_findings.json")
     if not os.path.exists(path):
